@@ -14,7 +14,8 @@
    The Spec predicates [dest_ok], [normal_exit_ok], [calls_ok] are the ones the
    correspondence check evaluates on the real observations. *)
 From Boltons Require Import Lib.Prelude Model.C04_Model Spec.C04_Spec Check.C04_Check
-     Proofs.C04_Inv Proofs.C04_Abort Proofs.C04_Single Proofs.C04_Transfer Proofs.C04_Examples.
+     Proofs.C04_Inv Proofs.C04_Abort Proofs.C04_Single Proofs.C04_Transfer Proofs.C04_Examples
+     Gen.C04_Gen Proofs.C04_GenCheck.
 Open Scope N_scope.
 
 (* At any crash point, under any fault schedule and any buffering behaviour, the destination holds
@@ -91,6 +92,17 @@ Theorem C04_agree_implies_holds :
     agree c = true -> holds c = true.
 Proof. exact agree_implies_holds. Qed.
 Print Assumptions C04_agree_implies_holds.
+
+(* (T) Obligation over data regenerated from the CURRENT source on every run (translator in harness/c04.py ->
+   coq/Gen/C04_Gen.v): on a fixed grid of 32 scenarios (all flag combinations x destination absent/present x
+   two bodies, four real kills each) the recorded traces, outcomes and directories are exactly the model's
+   (gen_trace = save cfg body) and satisfy the Spec's predicates.  A source change that alters any of them
+   breaks this obligation at build time. *)
+Theorem C04_recorded_grid : forallb (fun c => agree c && holds c) gen_cases = true.
+Proof. exact gen_cases_ok. Qed.
+Print Assumptions C04_recorded_grid.
+Example C04_recorded_grid_size : length gen_cases = 32%nat.
+Proof. exact gen_cases_count. Qed.
 
 (* the initial directories used by the correspondence run satisfy the well-formedness hypothesis *)
 Theorem C04_initial_wf : forall l, wf (fs_of_list l).
